@@ -210,8 +210,8 @@ def exhaustive_cases(n_max=4, vals=(F(1, 2), F(1), F(3, 2))):
             k += 1
             for algo in ("upgma", "nj"):
                 # alternate the container and the kind of names over the enumeration
-                yield make_case(algo, "exh", m, None, "numpy" if k % 2 else "list",
-                                NAME_POOL[k % 7:k % 7 + n] if (k // 2) % 2 else None)
+                yield make_case(algo, "exh", m, None, "numpy" if (k // 4) % 2 else "list",
+                                NAME_POOL[k % 7:k % 7 + n] if (k // 8) % 2 else None)
 
 
 # ----------------------------------------------------------------------
